@@ -12,8 +12,8 @@ CLAIMS = {
             "exact integers/rationals in TLC (32-bit safe at these bounds); floats compared to 1e-10; random_prob (blocks > 12, Monte Carlo by design) excluded",
             "DESIGN.md 5/C02"),
     "C03": ("model_checking",
-            "Infretis.tla (Layer R) model-checked for mutual exclusion of ensembles, paths, engine instances, exact lock marking and zero-swap atomicity over all interleavings of small systems; TLC-sampled behaviours are replayed on the real REPEX_state/assign_engines with forced draws, and real multi-worker runs are recorded; every step is validated by TLC against TraceInfretis.tla.",
-            "workers are executed in-process in the order the driver chooses; engine exclusivity is that of the instances handed out by the main process",
+            "Infretis.tla (Layer R) model-checked for mutual exclusion of ensembles, paths, engine instances, exact lock marking and zero-swap atomicity over all interleavings of small systems; TLC-sampled behaviours are replayed on the real REPEX_state/assign_engines with forced draws, real multi-worker runs are recorded step-driven, and the unmodified scheduler() runs with a real process pool (completion order decided by the operating system) under a recorder in the main process; every step is validated by TLC against TraceInfretis.tla.",
+            "in replayed and step-driven runs workers are executed in-process in the order the driver chooses; engine exclusivity is that of the instances handed out by the main process",
             "DESIGN.md 5/C03"),
     "C04": ("model_checking",
             "Infretis.tla with exact rational fractional weights model-checked for the accounting identity and write-once rows; every Complete event of replayed behaviours and recorded runs is checked by TLC for unit credit per idle column, zero on busy rows/columns, support, rows and restart-file contents.",
@@ -36,8 +36,8 @@ CLAIMS = {
             "process death only (os._exit); completed writes/renames are assumed durable; worker-side effects are outside",
             "DESIGN.md 5/C08"),
     "C17": ("model_checking",
-            "Runner.tla (queue, task wrappers, futures, managed list, stop) model-checked for exactly-once execution and delivery, clean stop and termination over all completion orders including failing tasks; its behaviours are replayed on the real aiorunner/future_list; the real scheduler() runs under a scripted executor for (workers, steps, restart point) combinations; step counting of Infretis.tla is replayed and validated by the trace specification.",
-            "the process pool is replaced by a scripted executor; everything else of the runner and the scheduler runs unmodified",
+            "Runner.tla (queue, task wrappers, futures, managed list, stop) model-checked for exactly-once execution and delivery, clean stop and termination over all completion orders including failing tasks; its behaviours are replayed on the real aiorunner/future_list; the real scheduler() runs under a scripted executor for (workers, steps, restart point) combinations; step counting of Infretis.tla is replayed and validated by the trace specification; the unmodified scheduler() with a real process pool and real moves is run, SIGKILLed, restarted and continued with more steps, every history validated by TraceInfretis.tla.",
+            "for the exhaustive completion orders the process pool is replaced by a scripted executor; everything else of the runner and the scheduler runs unmodified",
             "DESIGN.md 5/C17"),
 }
 
